@@ -12,12 +12,14 @@ class TopoCheck:
         "deductive part: 'emitted exactly once' (no duplicates in the result of topological_sort, any graph) and 'every class they depend on, "
         "transitively' (sort_classes closes the class list under dependencies and hands topological_sort a closed graph; a reported cycle raises); "
         "'before first use', the cycle flag itself and 'the source compiles' need edge-multiset counting / a compiler and are decided by the bounded part",
-        "assumed in the sort_classes proof: topological_sort returns only names that are keys of its argument or listed as parents (validated "
-        "natively on all graphs <= 3 nodes); a dict comprehension over a list has exactly the names of the listed classes as keys",
+        "the contract of topological_sort used in the sort_classes proof (it returns only names that are keys of its argument or listed as parents) is "
+        "itself discharged: post.lists_only_nodes_of_the_argument, carried by the invariants graph_keys_are_listed_parents / child_lists_hold_keys_only / "
+        "listed_nodes_are_nodes_of_the_argument; assumed python semantics: a dict comprehension over a list has exactly the names of the listed classes "
+        "as keys; list(d.keys()) lists keys of d",
         "python semantics assumed in the proof: a filtering list comprehension yields an order-preserving subsequence; dict keys are pairwise distinct",
     ]
-    EXPLANATION = ("Proved on the real topological_sort for every input graph (symbolic dict/list model, four loop invariants): the result never "
-                   "lists a node twice when no cycle is reported.  Proved on the real sort_classes for every class list and dependency relation (abstract "
+    EXPLANATION = ("Proved on the real topological_sort for every input graph (symbolic dict/list model, seven loop invariants): the result never "
+                   "lists a node twice when no cycle is reported and lists only nodes of its argument (keys or listed parents).  Proved on the real sort_classes for every class list and dependency relation (abstract "
                    "classes, growing list cut at a five-clause invariant): at the call of topological_sort every listed class has an entry and every "
                    "dependency name is itself a key (closure), a reported cycle raises, every sorted name is found in class_by_name. Bounded: run-time evaluation of the contract of topological_sort (no duplicate, complete, parents first, has_cycle iff cyclic) on the real "
                    "function over an exhaustively enumerated small scope, and of sort_classes/add_kernels on real classes of every kind including "
